@@ -469,6 +469,11 @@ class Gen:
                 return None
             cnt = min(cnt, room)
         b = self.literal(cnt)
+        if cnt >= 2 and r.random() < 0.3:
+            # a << 1 + 2: an additive count, unparenthesised, checks the precedence of the shift
+            k = r.randrange(1, cnt)
+            b = self.binary("+", Node(str(k), "int", k, P_PRIMARY, "lit"),
+                            Node(str(cnt - k), "int", cnt - k, P_PRIMARY, "lit")) or b
         if K_SHIFT in self.avoid and promote(b.ctype) != t:
             b = self.cast(b, t) if r.random() < 0.5 or t != "int" else Node(str(cnt), "int", cnt, P_PRIMARY, "lit")
         return b
